@@ -20,7 +20,7 @@ def head(g):
 def consuming(g):
     """True if g certainly consumes >= 1 token whenever it succeeds."""
     h = head(g)
-    if h in ("Any",): return True
+    if h in ("Any", "AnyRef", "SelectRef"): return True
     if h in ("End", "Empty"): return False
     if h in ("Just", "Custom"): return len(g[1]) > 0
     if h in ("OneOf", "NoneOf", "Select"): return True
@@ -86,7 +86,7 @@ EMIT = ["Validate"]
 RECOVER = ["RecoverVia", "RecoverSkipUntil", "RecoverSkipRetry"]
 DECOR = ["Labelled", "MapErr"]
 CTX = ["WithCtx", "IgnoreWithCtx", "ThenWithCtx", "MapCtx", "JustCfg"]
-LEAVES = {"End", "Empty", "Any", "Just", "OneOf", "NoneOf", "Select", "Custom", "JustCfg", "Skip", "NestedDelims"}
+LEAVES = {"End", "Empty", "Any", "Just", "OneOf", "NoneOf", "Select", "Custom", "JustCfg", "Skip", "NestedDelims", "AnyRef", "SelectRef"}
 WS = [32, 9]        # the whitespace characters used with (Padded ws a); inputs of such grammars get them in their alphabet
 DELIMS = [(40, 41), (91, 93), (123, 125)]
 sexp_G_HEADS = {"End", "Empty", "Any", "Just", "OneOf", "NoneOf", "Select", "Custom", "Map", "MapWith", "To", "Ignored",
@@ -137,7 +137,8 @@ class Gen:
             break
         else:
             c = "Any"
-        if c in ("End", "Empty", "Any"): return c
+        if c in ("End", "Empty", "Any", "AnyRef"): return c
+        if c == "SelectRef": return ["SelectRef", self.pred(), self.fn1()]
         if c == "Just": return ["Just", self.toks(1, 2) if self.r.random() < 0.9 else self.toks(0, 3)]
         if c in ("OneOf", "NoneOf"): return [c, self.toks(1, 3)]
         if c == "Select": return ["Select", self.pred(), self.fn1()]
@@ -385,14 +386,14 @@ def sample(rng, g, alpha, ctx=()):
                 else: out.append(rng.choice(alpha))
             return out
         return [g[1]] + bal(2) + [g[2]]
-    if h == "Any": return [rng.choice(alpha)]
+    if h in ("Any", "AnyRef"): return [rng.choice(alpha)]
     if h in ("Just", "Custom"): return list(g[1])
     if h == "JustCfg": return list(ctx) if ctx else list(g[1])
     if h == "OneOf": return [rng.choice(g[1])]
     if h == "NoneOf":
         c = [t for t in alpha if t not in g[1]]
         return [rng.choice(c)] if c else [rng.choice(alpha)]
-    if h == "Select":
+    if h in ("Select", "SelectRef"):
         p = g[1]
         if head(p) == "PTokIn": return [rng.choice(p[1])]
         if head(p) == "PTokNotIn":
